@@ -67,7 +67,7 @@ struct Step {
 struct World;
 static inline std::string opname(int op);
 
-enum AltType { ALT_NONE = 0, ALT_FAIL, ALT_SHORT, ALT_KILL, ALT_MACHINE_CRASH, ALT_READDIR_LATE, ALT_EINTR, ALT_SIGNAL, ALT_EXIT, ALT_TICK };
+enum AltType { ALT_NONE = 0, ALT_FAIL, ALT_SHORT, ALT_KILL, ALT_MACHINE_CRASH, ALT_READDIR_LATE, ALT_EINTR, ALT_SIGNAL, ALT_EXIT, ALT_TICK, ALT_SIGNAL_PARENT, ALT_HOLD_EXIT };
 struct Alt { int kind; int type; int arg; };  // kind: budget kind (explore.hpp); type: AltType; arg: errno / short count
 
 struct Scenario {
